@@ -32,6 +32,7 @@ func main() {
 	}
 	seed, _ := strconv.ParseInt(os.Getenv("VERIF_SEED"), 10, 64)
 	os.Unsetenv("GOWORK")
+	os.Setenv("IPCHECK_VERIF", *verif)
 
 	if *dump != "" {
 		p, err := ipc.LoadNamed("mod", *repo, nil, "", "")
